@@ -92,18 +92,40 @@ func workerMain(tier string) int {
 	p := tierParams(run.Thorough())
 	ids := &idCollector{}
 
-	stage("uniq")
-	stageUniq(run, p, ids)
-	stage("lin")
-	stageLin(run, p, ids)
-	stage("clone-seq")
-	stageCloneSeq(run, p, ids)
-	stage("clone-conc")
-	stageCloneConc(run, p, ids)
+	startHeartbeat()
+	// VERIF_C17_STAGES (debugging aid): comma list of stages to run; default all.
+	want := func(name string) bool {
+		f := os.Getenv("VERIF_C17_STAGES")
+		if f == "" {
+			return true
+		}
+		for _, x := range strings.Split(f, ",") {
+			if x == name {
+				return true
+			}
+		}
+		return false
+	}
+	if want("uniq") {
+		stage("uniq")
+		stageUniq(run, p, ids)
+	}
+	if want("lin") {
+		stage("lin")
+		stageLin(run, p, ids)
+	}
+	if want("clone") {
+		stage("clone-seq")
+		stageCloneSeq(run, p, ids)
+		stage("clone-conc")
+		stageCloneConc(run, p, ids)
+	}
 	stage("opid-set")
 	ids.check(run)
-	stage("race")
-	stageRace(run, p)
+	if want("race") {
+		stage("race")
+		stageRace(run, p)
+	}
 	stage("done")
 	return run.Finish()
 }
@@ -171,53 +193,71 @@ func supervise(tier string) int {
 	return code
 }
 
+// judgeStall turns a fired progress watchdog into a verdict: a violation only
+// when the goroutine dump establishes that an FContext is deadlocked,
+// inconclusive otherwise.
+func judgeStall(run *ev.Run, who string, m monitored, silence time.Duration) {
+	run.Eval(1)
+	path := saveDump(ev.ScratchDir(), "c17-"+who+"-goroutines.txt", m.text)
+	v := classifyDump(m.text)
+	run.Set(who+"_stalled_in_stage", m.lastStage)
+	run.Set(who+"_dump_goroutines_in_FContextImpl", v.inCtx)
+	run.Set(who+"_dump_parked_on_context_mutex", v.parked)
+	if v.deadlock {
+		run.Violation("C17:deadlock:"+strings.Join(v.methods, ","),
+			fmt.Sprintf("the %s completed no operation for %v in stage %q; its goroutine dump shows %d goroutines inside (*FContextImpl) methods, all of them parked acquiring the context's mutex (outermost methods: %s): the shared context is deadlocked under concurrent Clone / header access and can never be used again",
+				who, silence, m.lastStage, v.parked, strings.Join(v.methods, ", ")),
+			map[string]interface{}{"stage": m.lastStage, "seed": ev.Seed(), "tier": run.Tier, "parked_goroutines": v.parked,
+				"outermost_methods": v.methods, "dump_excerpt": v.excerpt, "dump_file": path})
+		return
+	}
+	why := "no goroutine is inside an (*FContextImpl) method"
+	if v.inCtx > 0 {
+		why = fmt.Sprintf("%d of %d goroutines inside (*FContextImpl) are not parked on its mutex (%s)", v.inCtx-v.parked, v.inCtx, strings.Join(v.others, "; "))
+	}
+	run.Inconclusive(fmt.Sprintf("%s completed no operation for %v in stage %q and was stopped; no FContext deadlock established: %s", who, silence, m.lastStage, why))
+}
+
 func superviseWorker(tier string) int {
+	thorough := ev.Tier(tier) == "thorough"
 	limit := 15 * time.Minute
-	if ev.Tier(tier) == "thorough" {
+	if thorough {
 		limit = 45 * time.Minute
 	}
+	silence := silenceLimit(thorough)
 	cmd := exec.Command(os.Args[0], tier, "--worker")
 	cmd.Stdout = os.Stdout
-	errb := &cappedBuffer{max: 256 << 10}
-	cmd.Stderr = errb
-	cmd.Env = os.Environ()
-	if err := cmd.Start(); err != nil {
+	cmd.Env = append(os.Environ(), "GOTRACEBACK=all")
+	m := runMonitored(cmd, silence, limit, nil)
+	if m.err != nil && m.exitCode == 0 {
 		run := ev.New("C17", tier, "exploration")
-		run.Inconclusive("cannot start the worker process: " + err.Error())
+		run.Inconclusive("cannot run the worker process: " + m.err.Error())
 		return run.Finish()
 	}
-	timedOut := make(chan struct{})
-	timer := time.AfterFunc(limit, func() { close(timedOut); cmd.Process.Kill() })
-	err := cmd.Wait()
-	timer.Stop()
-	code := 0
-	if err != nil {
-		code = -1
-		if ee, ok := err.(*exec.ExitError); ok {
-			code = ee.ExitCode()
-		}
-	}
-	stderr := errb.String()
-	if code == 0 || code == 1 || code == 3 {
+	code := m.exitCode
+	if !m.stalled && !m.hardLimit && (code == 0 || code == 1 || code == 3) {
 		// normal verdicts; show anything unexpected the worker said
-		for _, ln := range strings.Split(stderr, "\n") {
-			if ln != "" && !strings.HasPrefix(ln, "C17-STAGE ") {
+		for _, ln := range strings.Split(m.text, "\n") {
+			if ln != "" {
 				fmt.Fprintln(os.Stderr, ln)
 			}
 		}
 		return code
 	}
-	// The worker died: fatal error, panic, or the watchdog.
-	lastStage := ""
-	var rest []string
-	for _, ln := range strings.Split(stderr, "\n") {
-		if strings.HasPrefix(ln, "C17-STAGE ") {
-			lastStage = strings.TrimPrefix(ln, "C17-STAGE ")
-			continue
+	lastStage := m.lastStage
+	if m.stalled || m.hardLimit {
+		run := ev.New("C17", tier, "exploration")
+		run.Rule("the worker process stopped making progress; the supervisor asked for a goroutine dump and classifies it")
+		if m.hardLimit {
+			run.Inconclusive(fmt.Sprintf("worker exceeded the overall %v limit in stage %q", limit, lastStage))
+			return run.Finish()
 		}
-		rest = append(rest, ln)
+		judgeStall(run, "worker", m, silence)
+		return run.Finish()
 	}
-	text := strings.Join(rest, "\n")
+	rest := strings.Split(m.text, "\n")
+	// The worker died on its own: fatal error or panic.
+	text := m.text
 	head := text
 	if len(head) > 6000 {
 		head = head[:6000]
@@ -231,12 +271,6 @@ func superviseWorker(tier string) int {
 	run.Rule("the worker process died; the supervisor classifies its death and still runs the race stage")
 	run.Set("worker_died_in_stage", lastStage)
 	run.Set("worker_exit_code", code)
-	select {
-	case <-timedOut:
-		run.Inconclusive(fmt.Sprintf("worker exceeded the %v watchdog in stage %q", limit, lastStage))
-		return run.Finish()
-	default:
-	}
 	first := ""
 	for _, ln := range rest {
 		if strings.HasPrefix(ln, "fatal error:") || strings.HasPrefix(ln, "panic:") {
